@@ -180,12 +180,15 @@ PROPS["C07"] = {
             "mutation of ~8% of the lines, x generated traffic (urlencoded / JSON / XML / multipart / raw bodies, valid and broken) driven "
             "through canonical and anomalous API scripts or ParseRequestReader; in half of the cases the request values are built from every "
             "decoder's escape alphabet (complete and truncated escapes, invalid UTF-8) and 1-3 rules run random transformation chains over "
-            "everything the peer controls; oracle = recover() around NewWAF and every call, NewWAF "
+            "everything the peer controls; one case in six uses small body limits, both limit actions and rules that move the limits / "
+            "switch body access or the body processor in any phase; bodies arrive in pieces through the slice and the reader entry "
+            "points; anomalous scripts duplicate, drop, swap and move calls, add extra body writes and phase calls anywhere and keep using "
+            "the handle after Close; oracle = recover() around NewWAF and every call, NewWAF "
             "returns exactly one of (waf, error), watchdog for hangs; non-trivial = the configuration was accepted and traffic was driven "
             "through it; distinct = distinct case encodings",
     "essential": {"all": ["accepted", "rejected-with-error", "rules-fired", "parse-request-reader", "act:setvar", "act:ctl", "op:rx", "op:pm",
                           "op:validateNid", "op:restpath", "dir:secruleremovebymsg", "dir:secruleupdatetargetbyid", "dir:secauditlogformat",
-                          "hostile-values-through-transformation-chains"]},
+                          "hostile-values-through-transformation-chains", "body-limit-dynamics"]},
     "vocab_complete": True,
     "assumptions": COMMON_ASSUME + [
         "@rbl, @geoLookup and SecRemoteRules (network I/O by design) are compiled but not driven with traffic; @inspectFile / exec name a non-existent program",
@@ -402,17 +405,21 @@ PROPS["C20"] = {
     "level": "fault_enumeration",
     "runs": [run("TestC20Early", (2500, 3), (60000, 8)), run("TestC20Faults", (3, 3), (12, 8), shrinktime="1s")],
     "cap_s": {"quick": 900, "thorough": 7200},
-    "rule": "scenarios = body none / in memory / spilled to disk / multipart with 0..3 uploads x SecUploadKeepFiles Off|On|RelevantOnly x audit "
+    "rule": "scenarios = body none / in memory / spilled to disk / larger than a small body limit and written in pieces (one of them ending "
+            "exactly at the limit in half of the cases; Reject and ProcessPartial; the excess must show as an interruption, an error "
+            "variable or a log entry) / multipart with 0..3 uploads x SecUploadKeepFiles Off|On|RelevantOnly x audit "
             "Off|Serial|Concurrent x deny in phase 0-4 x logging rule x response body; (a) early termination: the API script is stopped "
             "after every prefix, then Close (in process); (b) fault enumeration: the scenario runs in a child process under strace; a "
-            "recording run lists every openat / write / pwrite64 / read / pread64 / close / unlinkat / mkdirat on a body spill file, an "
+            "three core scenarios (three uploads + serial audit, two uploads + concurrent audit, spilled body + deny) are enumerated in "
+            "every run besides the drawn ones; a recording run lists every openat / write / pwrite64 / read / pread64 / close / unlinkat / mkdirat on a body spill file, an "
             "upload file or the audit directory, then the scenario is re-run once per listed call with exactly that call failing (EACCES / "
             "ENOSPC / EIO); an injection counts only if strace reports exactly one injected call, before the transaction is closed, on the "
             "same (normalised) path as recorded; oracle = no panic, the failure is visible (returned error, error variable, error-level "
             "debug log entry or interruption), no temporary file left after Close except what upload retention keeps (and the target of a "
             "failing unlink), file descriptors back to the baseline, a following transaction on the same WAF behaves normally; "
             "non-trivial = at least one aligned injection (faults) / a scenario with files stopped at or after the third call (early)",
-    "essential": {"all": ["body:spill", "body:multipart", "uploads", "keep:On", "keep:RelevantOnly", "interrupted"]},
+    "essential": {"all": ["body:spill", "body:multipart", "uploads", "keep:On", "keep:RelevantOnly", "interrupted", "body-over-limit:Reject",
+                          "body-over-limit:ProcessPartial", "write-ends-exactly-at-limit", "core-scenario", "fault:unlinkat", "fault:openat", "fault:write"]},
     "assumptions": COMMON_ASSUME + [
         "strace -e inject counts 'when=N' per traced thread; misaligned runs are detected after the fact and discarded (counted in coverage.extra)",
         "faults on the writability probe files (checkfsfile*) NewWAF creates are out of scope; a failed read at end of file is not a fault (no data)",
